@@ -292,6 +292,9 @@ func (m *Machine) unop(fr *frame, x *ssa.UnOp) Value {
 	v := m.get(fr, x.X)
 	switch x.Op {
 	case token.MUL:
+		if sp, ok := v.(SymPtr); ok {
+			return m.symLoad(sp)
+		}
 		return m.load(v.(Ptr), "")
 	case token.NOT:
 		return tNot(v.(*Term))
@@ -671,7 +674,7 @@ func (m *Machine) convert(v Value, from, to types.Type) Value {
 		}
 		return Slice{a, 0, len(str), len(str)}
 	}
-	unsupported("convert %s -> %s", from, to)
+	unsupported("convert %s -> %s @ %s", from, to, m.where())
 	return nil
 }
 
